@@ -1145,3 +1145,15 @@ package stack
 //@   modifies nothing
 //@   ensures result != nil && fresh(result) && forall i :: 0 <= i && i < len(result.Buckets) ==> result.Buckets[i] != nil
 
+// ---- html.go: what the template is given (C17 completeness wiring) -----------------
+//@ func toHTML
+//@   option assumed
+//@   modifies nothing
+//@ func (*Aggregated).ToHTML
+//@   requires a != nil
+//@   modifies nothing
+//@   assert after-call toHTML#1: [templateGetsTheAggregationAndItsSnapshot C17] arg0 == w && dom(arg1, "Aggregated") && ptrof(arg1["Aggregated"]) == a && dom(arg1, "Snapshot") && ptrof(arg1["Snapshot"]) == a.Snapshot && dom(arg1, "Footer")
+//@ func (*Snapshot).ToHTML
+//@   requires s != nil
+//@   modifies nothing
+//@   assert after-call toHTML#1: [templateGetsTheSnapshotOnly C17] arg0 == w && dom(arg1, "Snapshot") && ptrof(arg1["Snapshot"]) == s && !dom(arg1, "Aggregated") && dom(arg1, "Footer")
